@@ -957,6 +957,15 @@ theorem sq_object_grow_keeps_invariant (o : Sq.SqObj) (h : o.Inv) (hn : o.n + 2 
       o.growTo k = { o with salloc := (o.growTo k).salloc, mcap := (o.growTo k).salloc }) :=
   ⟨Sq.SqObj.grow_inv o h hn, Sq.SqObj.growTo_inv o h k⟩
 
+/-- **appending a residue the way the sequence readers do** (`esl_sq_Grow`, store the residue and one character in EVERY markup
+    buffer, `n++`, `esl_sq_Grow`, terminate everything), in either mode, at any length (`n + 3 ≤ 2^64`): both stores and both
+    terminators are inside the allocations Grow left, the invariant is kept, exactly one residue and one markup character were
+    appended, the allocation never shrinks — "after Grow the allocation covers what the caller will write" at object level -/
+theorem sq_object_append_spec (o : Sq.SqObj) (h : o.Inv) (hn : o.n + 3 ≤ 2 ^ 64) (r m : Nat) :
+    ∃ ns o', Sq.SqObj.append o r m = some (ns, o') ∧ o'.Inv ∧ o'.res = o.res ++ [r] ∧ o'.ss = o.ss.map (· ++ [m]) ∧
+      o'.xr = o.xr.map (· ++ [m]) ∧ o'.digital = o.digital ∧ o.salloc ≤ o'.salloc :=
+  Sq.SqObj.append_spec o h hn r m
+
 /-- **`esl_sq_Digitize` / `esl_sq_Textize` on an object with `ss` and `xr` markup**: Digitize leaves a digital object alone,
     rejects text with a character outside the alphabet (eslEINVAL, object untouched), and on valid text gives one code per
     character with `salloc` raised to `n+2` when `esl_sq_CreateFrom`'s `n+1` was one short; Textize spells valid codes; in both
@@ -1025,6 +1034,21 @@ example : (Sq.mkObj false false (str "ACGT") (some (str "<..>")) [str "1234"]).a
   decide
 example (o : Sq.SqObj) (h : Sq.mkObj true false [0, 1, 2] (some (str "<.>")) [] = some o) : o.Inv :=
   Sq.SqObj.mkObj_inv true [0, 1, 2] (some (str "<.>")) [] (by decide) (by decide) o h
+
+/-- **`esl_abc_CreateDsq` / `esl_abc_dsqlen`**: `CreateDsq` allocates `strlen(seq)+2` codes and calls `Digitize`: the digitised array
+    never has more than `|seq| + 2` cells (ignored characters only shorten it), and `esl_abc_dsqlen` of the result is the number
+    of non-ignored characters — for every alphabet and every string -/
+theorem createdsq_allocation_dsqlen (a : Alphabet) (h : 3 ≤ a.Kp) (hk : a.Kp ≤ 250) (seq : List Nat) :
+    (a.digitize seq).2.length ≤ seq.length + 2 ∧ dsqlen (a.digitize seq).2 = some (seq.filterMap a.code).length := by
+  have hd := (digitize_sentinels a h hk seq)
+  rw [hd.1]
+  refine ⟨?_, dsqlen_mkDsq _ (fun hm => (hd.2 _ hm).2 rfl)⟩
+  simp only [mkDsq, List.length_cons, List.length_append, List.length_nil]
+  have := List.length_filterMap_le a.code seq
+  omega
+
+example : dsqlen (G.dna.digitize (str "AC GT")).2 = some 5 ∧ dsqlen ((G.dna.setIgnored [32]).digitize (str "AC GT")).2 = some 4 := by
+  decide +kernel
 
 /-! ## round 6: case-insensitivity of the input map; the value of `esl_sq_Checksum` -/
 
